@@ -156,6 +156,10 @@ class SymEnv(BaseEnv):
     def qzeros(self, shape):
         return shim.qzeros(tuple(shape))
 
+    def rconst_obj(self, lists):
+        """nested lists of (symbolic) scalars -> real array"""
+        return shim.to_robj(np.array(lists, dtype=object))
+
     def q(self, w=0, x=0, y=0, z=0):
         return shim.SymQuat(w, x, y, z)
 
@@ -295,7 +299,7 @@ class SymEnv(BaseEnv):
             return self._query(name, z3.Not(cond.e))
         return self._query(name, not bool(cond))
 
-    def le(self, name, a, b, slack=0.0):
+    def le(self, name, a, b, slack=0.0, abs_slack=0.0):
         """clause: a <= b"""
         r = lift(a) <= lift(b)
         return self.holds(name, r)
@@ -360,7 +364,10 @@ class ConcEnv(BaseEnv):
 
     def _v(self, name):
         if name in self.vals:
-            v = float(self.vals[name])
+            try:
+                v = float(self.vals[name])
+            except OverflowError:
+                v = float('inf') if self.vals[name] > 0 else float('-inf')
         elif self.default is not None:
             v = float(self.default)
         else:
@@ -499,9 +506,9 @@ class ConcEnv(BaseEnv):
         self.log.append((name, 'ok', ''))
         return True
 
-    def le(self, name, a, b, slack=1e-9):
+    def le(self, name, a, b, slack=1e-9, abs_slack=1e-12):
         a, b = float(a), float(b)
-        if not (a <= b + slack * max(1.0, abs(a), abs(b))):
+        if not (a <= b + slack * max(abs(a), abs(b)) + abs_slack):
             self._fail(name, '%r <= %r fails' % (a, b))
             return False
         self.log.append((name, 'ok', ''))
